@@ -106,7 +106,7 @@ def check(pid, tier, seed, only_report=None):
             kh = [h for h in prop.get("kani", []) if tier == "thorough" or not REG.KANI[h].get("thorough_only")]
             if os.environ.get("VERIF_SKIP_KANI") == "1":   # self-test convenience only; never set by the registered commands
                 kh = []
-            kf = ex.submit(_run_kani, kh) if kh else None
+            kf = ex.submit(_run_kani, kh, tier) if kh else None
             lf = [ex.submit(L.run, name, work, tier) for name in prop.get("lemmas", [])]
             cfuts = {un: ex.submit(V.run, cu, cpath, rl) for un, (cu, cpath) in canary_units.items()}
             for un, f in futs.items():
@@ -335,9 +335,11 @@ def check(pid, tier, seed, only_report=None):
     return rc
 
 
-def _run_kani(hs):
+def _run_kani(hs, tier="quick"):
     some = [h for h in hs if REG.KANI[h].get("covers") == "some"]
-    return K.run(REPO, hs, 16, some_covers=some)
+    # the largest batch takes about 3 minutes on the unchanged tree; a changed tree can make a harness blow up, which is then a tool
+    # error (exit 2) after the limit rather than after 50 minutes
+    return K.run(REPO, hs, 16, timeout=1500 if tier == "quick" else 3000, some_covers=some)
 
 
 def _write_evidence(pid, tier, seed, prop, wall, ob_total, ob_discharged, ob_bounded, ob_bounded_ok, samples, functions,
